@@ -36,6 +36,7 @@ func runPRNG(c *vrt.Ctx) {
 	vrt.Parallel(len(jobs), func(ji int) {
 		j := jobs[ji]
 		t := newTally()
+		defer total.merge(t)
 		r := c.RNG("prng/rt", ji)
 		name := "prng." + j.k.Name
 		c.LastCase(fmt.Sprintf("prng roundtrip %s %s step %d rep %d", j.k.Name, j.state, j.step, j.rep))
@@ -96,10 +97,9 @@ func runPRNG(c *vrt.Ctx) {
 		}
 		// the hostile-input validator on the valid state (re-marshal equality etc.)
 		report(c, t, name, state, 0, chk.PRNG(j.k, state))
-		if c.WantSample() && ji%53 == 7 {
+		if c.WantSample() && ji == 7 {
 			c.Sample(map[string]any{"codec": name, "state": j.state, "seed": seed, "outputs_before_marshal": step, "first_output_after": fmt.Sprintf("%#x", want[0])})
 		}
-		total.merge(t)
 	})
 	total.flush(c)
 }
